@@ -613,18 +613,22 @@ def rating_arguments(run):
     with warnings.catch_warnings():
         warnings.simplefilter("ignore")
         from nanite.rate import IndentationRater
-        for what in ("names", "training_set"):
-            sc = f"rate_quality({what})"
-            payload = {"kind": "rating", "what": what}
+        # (regressors with and without the scaling step of the pipeline)
+        for reg, what in [(r_, w_) for r_ in ("Decision Tree",
+                                              "SVR (RBF kernel)",
+                                              "SVR (linear kernel)")
+                          for w_ in ("names", "training_set")]:
+            sc = f"rate_quality({what}; {reg})"
+            payload = {"kind": "rating", "what": what, "regressor": reg}
             run.case({"api": sc}, kind="rating")
             a_idnt, b_idnt = fitted_curve(6), fitted_curve(6)
             nm = list(names)
             X, y = IndentationRater.load_training_set(names=nm)
             ts = (X.copy(), y.copy())
             snap = (copy.deepcopy(nm), (ts[0].copy(), ts[1].copy()))
-            kw = dict(regressor="Decision Tree", names=nm, training_set=ts)
+            kw = dict(regressor=reg, names=nm, training_set=ts)
             a_idnt.rate_quality(**kw)
-            b_idnt.rate_quality(regressor="Decision Tree", names=list(nm),
+            b_idnt.rate_quality(regressor=reg, names=list(nm),
                                 training_set=(X.copy(), y.copy()))
             ok = (nm == snap[0] and np.array_equal(ts[0], snap[1][0])
                   and np.array_equal(ts[1], snap[1][1]))
@@ -636,12 +640,12 @@ def rating_arguments(run):
             if what == "names":
                 nm.pop()
                 ts = tuple(IndentationRater.load_training_set(names=nm))
-                kw = dict(regressor="Decision Tree", names=nm,
+                kw = dict(regressor=reg, names=nm,
                           training_set=ts)
             else:
                 ts[1][:] = np.clip(ts[1] // 2 + 1, 0, 10)
             ra = a_idnt.rate_quality(**kw)
-            rb = b_idnt.rate_quality(regressor="Decision Tree",
+            rb = b_idnt.rate_quality(regressor=reg,
                                      names=list(nm),
                                      training_set=(ts[0].copy(), ts[1].copy()))
             if ra != rb:
@@ -649,6 +653,38 @@ def rating_arguments(run):
                             f"{sc}: edited argument passed again gives {ra}, "
                             f"a fresh equal-valued one {rb}", payload=payload,
                             theorem="C10_by_value")
+        # the rater class itself, with every pipeline layout
+        for scale in (None, True, False):
+            for lda in (None, True):
+                sc = f"IndentationRater(scale={scale}, lda={lda})"
+                payload = {"kind": "rating", "what": sc}
+                run.case({"api": sc}, kind="rating")
+                nm = list(names)
+                X, y = IndentationRater.load_training_set(names=nm)
+                ts = (X.copy(), y.copy())
+                try:
+                    from sklearn import svm
+                    r1 = IndentationRater(regressor=svm.SVR(), scale=scale,
+                                          lda=lda, training_set=ts, names=nm)
+                    s1 = np.array(r1.pipeline.predict(X[:5].copy()))
+                    r2 = IndentationRater(regressor=svm.SVR(), scale=scale,
+                                          lda=lda, training_set=ts, names=nm)
+                    s2 = np.array(r2.pipeline.predict(X[:5].copy()))
+                except BaseException as e:
+                    run.failing(SITE, sc + "|raised", f"{sc}: raised "
+                                f"{type(e).__name__}: {e}", payload=payload)
+                    continue
+                if not (np.array_equal(ts[0], X) and np.array_equal(ts[1], y)
+                        and nm == names):
+                    run.failing(SITE, sc + "|mutated", f"{sc}: the training "
+                                "set / names handed over were modified",
+                                payload=payload, theorem="C10_no_mutation")
+                if not np.array_equal(s1, s2):
+                    run.failing(SITE, sc + "|by-value", f"{sc}: the same "
+                                "training set objects used a second time "
+                                f"predict {s2.tolist()}, the first time "
+                                f"{s1.tolist()}", payload=payload,
+                                theorem="C10_by_value")
 
 
 def array_arguments(run):
